@@ -99,7 +99,7 @@ def judge(run, events, pid_filter=None):
         key = "eval:" + sha([ev["src"], inputs[0]])
         kinds = set()
         for b in unknown:
-            kinds.add("input-encoding" if not b["enc_ok"] else ("value" if b["expected"]["kind"] == "ok" else "panic"))
+            kinds.add("input-encoding" if not b["enc_ok"] else ("value" if b["expected"]["kind"] == "ok" else ("panic" if b["expected"]["kind"] == "panic" else b["expected"]["kind"])))
         run.fail(key, "compiled circuit disagrees with the source semantics (%s):\n%s" % (",".join(sorted(kinds)), describe(ev, unknown, 1)),
                  {"id": ev["id"], "src": ev["src"], "inputs": inputs, "expected": [b["expected"] for b in unknown][:4],
                   "observed": [{c: decode_out(ev["runs"][b["run"] - 1]["outs"][c]) for c in b["cfgs"]} for b in unknown][:4]})
